@@ -115,7 +115,12 @@ func BuildClassList(classes ...any) (string, error) {
 			}
 			classList = append(classList, class)
 		case []string:
-			classList = append(classList, class...)
+			for _, cls := range class {
+				if cls == "" {
+					continue
+				}
+				classList = append(classList, cls)
+			}
 		case map[string]bool:
 			var keys []string
 			for cls, ok := range class {
